@@ -17,7 +17,9 @@ import numpy as np
 import framework as fw
 import genlayer as gl
 
-UNITS = ["C(N)C", "C(=O)C", "OCC", "CC(F)", "CC(O)", "C(Cl)C", "C(N)C", "CC(F)", "CC", "CC(C)"]
+# the last two have a side group that is symmetric in itself (ring flip, isopropyl) while the backbone atoms stay in place: the sub-structure search
+# must not count such automorphic embeddings
+UNITS = ["C(N)C", "C(=O)C", "OCC", "CC(F)", "CC(O)", "C(Cl)C", "C(N)C", "CC(F)", "CC", "CC(C)", "CC(c1ccccc1)", "C(C(C)C)C"]
 DISTS = [("gauss", lambda u, r: (r.choice([2, 3, 4.5]) * u, r.choice([0.3, 0.8, 1.5]) * u)), ("uniform", lambda u, r: (int(0.5 * u), int(r.choice([3, 5]) * u))),
          ("poisson", lambda u, r: (r.choice([2.5, 4]) * u,)), ("log_normal", lambda u, r: (r.choice([2, 4]) * u, r.choice([1.1, 1.5]))),
          ("flory_schulz", lambda u, r: (r.choice([0.1, 0.05 + 1.0 / u]),)),
@@ -147,8 +149,13 @@ def check(rep):
         # a token whose fragment has a non-trivial automorphism (CC, CC(C)): RDKit's unique matches keep one orientation only
         import genrun
         def _sym(t):
+            """an automorphism of the fragment that MOVES an atom carrying a bond descriptor (the known finding); a symmetry of a side group that
+            leaves the attachment atoms in place is harmless on the unchanged code and is not excused"""
             f = Chem.MolFromSmiles(t.generate_smiles_fragment())
-            return f is not None and f.GetNumAtoms() > 1 and len(f.GetSubstructMatches(f, uniquify=False)) > 1
+            if f is None or f.GetNumAtoms() <= 1:
+                return False
+            att = [int(b.atom_bonding_to) for b in t.bond_descriptors if getattr(b, "atom_bonding_to", None) is not None]
+            return any(m[a] != a for m in f.GetSubstructMatches(f, uniquify=False) for a in att if a < len(m))
         sym_tags = {"symmetric_token_pattern"} if any(_sym(t) for t in genrun.tokens_of(mol)) else set()
         # ---- closed form of the code (model) and of the generator
         m0 = 0.0
@@ -166,7 +173,14 @@ def check(rep):
         shape_hist[shape] = shape_hist.get(shape, 0) + 1
         # a molecule that is mapped onto itself by reversing the chain is embedded twice by the search
         mh = Chem.MolFromSmiles(smi)
-        mult = len(mh.GetSubstructMatches(mh, uniquify=False, useChirality=False)) if desc["start"] in ("prefix", "same_unit") else 1
+        # number of ends the search can start from: the orbit of a start-fragment match under the automorphisms of the molecule (a reversal of
+        # the chain doubles it; a symmetry inside a side group, e.g. a ring flip, leaves every match where it is and does not count)
+        mult = 1
+        if desc["start"] in ("prefix", "same_unit"):
+            autos = mh.GetSubstructMatches(mh, uniquify=False, useChirality=False)
+            pat = Chem.MolFromSmiles(mol._elements[0].generate_smiles_fragment())
+            for m0 in (mh.GetSubstructMatches(pat) if pat is not None else []):
+                mult = max(mult, len({frozenset(a[i] for i in m0) for a in autos}))
         code *= mult
         if desc["start"] == "same_unit":
             # generation: block 1 makes i >= 1 units, block 2 the other n - i >= 1; the molecule does not tell the cut, so its probability is the sum over cuts
